@@ -746,6 +746,27 @@ def extract_guards(src: Path) -> str:
                        "   -- protocol_send: `stream.send_all` runs inside a shielded CancelScope")
     except Exception as e:
         fail("blockedWriteFlags", str(e))
+    # C19 (F117): Config.create_sockets records the QUIC addresses of THIS call whether or not TLS is on (without TLS: none), i.e.
+    # `self._set_quic_addresses(...)` is called outside the `if self.ssl_enabled:` statement or in both of its branches
+    try:
+        cfg_t = parse(src / "config.py")
+        cs_fn = find_def(cfg_t, "Config", "create_sockets")
+        if cs_fn is None:
+            fail("configQuicSetAlways", "Config.create_sockets not found")
+        else:
+            def _calls_set(nodes) -> bool:
+                return any(isinstance(n, ast.Call) and ast.unparse(n.func) == "self._set_quic_addresses" for st in nodes for n in ast.walk(st))
+            always = False
+            for st in cs_fn.body:  # type: ignore
+                if isinstance(st, ast.If) and "ssl_enabled" in ast.unparse(st.test):
+                    if _calls_set(st.body) and _calls_set(st.orelse):
+                        always = True
+                elif _calls_set([st]):
+                    always = True
+            out.append(f"def configQuicSetAlways : Bool := {'true' if always else 'false'}"
+                       "   -- create_sockets calls _set_quic_addresses with and without TLS")
+    except Exception as e:
+        fail("configQuicSetAlways", str(e))
     # C08 (F114): trio's EventWrapper.clear() - a trio.Event cannot be cleared, it is replaced; is it replaced only when it is set
     # (an unset event may have tasks waiting on it: replacing it orphans them)?
     try:
